@@ -23,6 +23,7 @@ from ..ref import bls as ref
 ID = "C01"
 LEVEL = "model_checking"
 DESIGN_REF = "DESIGN.md 4/C01"
+CASE_TIMEOUT = 90.0  # a single (tree | lemma | history) case takes well under a second on a correct tree
 RULE = (
     "(A) (d, R, op, k): all non-empty R subset of Z_d, d<=D, k in 0..3d+2 plus far counts {2**31, 2**63, 2**63+1, 10**18+9}, "
     "op in {repeat, repeat_range}; (leaf, alignment, d) for padding. (B) all operator trees of the tier's depth over 8 leaves, "
@@ -89,7 +90,8 @@ def trees(depth: int):
     elif depth == 2:
         yield from grow(depth1())
     elif depth == 3:
-        yield from grow(grow(depth1()))
+        # every 4th depth-2 tree as the non-leaf child (a stated slice: the full depth-3 space is 1.26 M trees x 67 divisors)
+        yield from grow(t for i, t in enumerate(grow(depth1())) if i % 4 == 0)
 
 
 def build(t, spelling: int = 0) -> BitLengthSet:
@@ -396,7 +398,7 @@ def finish(tier, M):
     return {
         "bounds": {
             "quick": "lemma: all R for d<=7, |R|<=3 for d<=12, k<=3d+2+far; pad: all leaves subset of 0..9, a<=8, d<=8; trees depth<=2, d in 1..16,32,64; histories: 5 queries (120 permutations + re-ask) on depth<=1 trees and a slice of depth 2",
-            "thorough": "lemma: all R for d<=9, |R|<=3 for d<=24; pad: leaves subset of 0..11; trees depth<=3 (one non-leaf child per node), d in 1..64 (+255,256,12345 when counts<=8); histories: 6 queries (720 permutations)",
+            "thorough": "lemma: all R for d<=9, |R|<=3 for d<=24; pad: leaves subset of 0..11; trees depth<=2 in full and depth 3 over every 4th depth-2 child (one non-leaf child per node), d in 1..64 (+255,256,12345 when counts<=8); histories: 6 queries (720 permutations)",
         }[tier],
         "reference_selfcheck": "ref.bls.selfcheck(): explicit expansion vs modular exponentiation on >1000 (tree, divisor) pairs in every worker",
     }
